@@ -50,10 +50,11 @@ public:
 	}
 	SmartObject& operator=(const SmartObject& n)
 	{
+		SmartObject_* p = n._p; // take the new reference before releasing the old object: n may be this handle or a member of that object
+		if (p)
+			++p->rc;
 		unref();
-		_p = n._p;
-		if (_p)
-			++_p->rc;
+		_p = p;
 		return *this;
 	}
 	~SmartObject()
